@@ -114,6 +114,12 @@ func WriteTree(root string, files map[string]string) error {
 		if strings.HasPrefix(c, "=>") { // hard link to an absolute path written earlier (links are made last)
 			continue
 		}
+		if c == "|fifo" { // a named pipe (nobody writes to it: reading it blocks)
+			if err := syscall.Mkfifo(full, 0o644); err != nil {
+				return err
+			}
+			continue
+		}
 		if err := os.WriteFile(full, []byte(c), 0o644); err != nil {
 			return err
 		}
